@@ -19,7 +19,10 @@ def spec(tier: str, seed: int, which: str = "C18") -> Spec:
     ops = H.NULLARY + H.UNARY + H.BINARY
     var = "selectors: forest, operation, receiver, argument per step"
     if K == 2:
-        fams = [Family(f"K2-first-{op}", H.make_harness(2, which, [op]), per_path_timeout=3.0, variables=var) for op in ops]
+        # quick: every first operation on the first four forests; on the forest with two sequence / optional
+        # sequence fields the first operations that touch sequences (the thorough tier has all of them)
+        fams = [Family(f"K2-first-{op}", H.make_harness(2, which, [op], n_forests=H.GUIDED_FORESTS), per_path_timeout=3.0, variables=var) for op in ops]
+        fams += [Family(f"K2-sequence-forest-first-{op}", H.make_harness(2, which, [op], forest=H.SEQ_FOREST), per_path_timeout=3.0, variables=var) for op in H.SEQ_FIRST_OPS]
     else:
         fams = [Family(f"K3-first-{op}-forest{f}", H.make_harness(3, which, [op], forest=f, last_ops=H.THIRD_OPS), per_path_timeout=3.0, variables=var) for op in ops for f in range(H.FALSY_FOREST)]
     # guided families (C18 only): a stale predecessor is created first, then a longer history over a
